@@ -96,6 +96,7 @@ def gen_content(rng, cfg, size='normal'):
         nl = [nlrienc.gen_value(fam, rng, rng.below(1 << 32) if ap else None,
                                 boundary=(rng.choice(BOUNDS[nlrienc.kind(fam)]) if nlrienc.kind(fam) in ('F', 'E') else None)) for _ in range(k)]
         c['unreach'] = (fam, nl)
+    c['reach_ext'], c['unreach_ext'], c['mp_first'] = rng.chance(1, 6), rng.chance(1, 6), rng.chance(1, 5)
     # attributes: a random subset in random order (codes unique)
     four = cfg['four']
     cand = [1, 2, 3, 4, 5, 6, 7, 8, 9, 10, 16, 17, 18, 20, 21, 25, 32, 35, 128, 255]
@@ -177,18 +178,30 @@ def encode(c):
         attrs += tlv(flags, code, v, ext)
         e = len(v) > 255 or ext
         triples.append(((flags | 0x10) if e else (flags & 0xef), code, len(v)))
+    # the MP attributes: behind the others, or in front of them (mp_first); with the extended-length form also for a short value
+    # (reach_ext / unreach_ext)
+    mp = b''
+    mp_triples = []
     if c['reach']:
         fam, nh, nl = c['reach']
         a, s = nlrienc.AFISAFI[fam]
         v = struct.pack('>HBB', a, s, len(nh)) + nh + b'\x00' + b''.join(nlrienc.encode(x) for x in nl) + c.get('reach_garbage', b'')
-        attrs += tlv(0x80, 14, v)
-        triples.append((0x90 if len(v) > 255 else 0x80, 14, len(v)))
+        e = bool(c.get('reach_ext'))
+        mp += tlv(0x80, 14, v, e)
+        mp_triples.append((0x90 if (len(v) > 255 or e) else 0x80, 14, len(v)))
     if c['unreach']:
         fam, nl = c['unreach']
         a, s = nlrienc.AFISAFI[fam]
         v = struct.pack('>HB', a, s) + b''.join(nlrienc.encode(x) for x in nl) + c.get('unreach_garbage', b'')
-        attrs += tlv(0x80, 15, v)
-        triples.append((0x90 if len(v) > 255 else 0x80, 15, len(v)))
+        e = bool(c.get('unreach_ext'))
+        mp += tlv(0x80, 15, v, e)
+        mp_triples.append((0x90 if (len(v) > 255 or e) else 0x80, 15, len(v)))
+    if c.get('mp_first'):
+        attrs = mp + attrs
+        triples = mp_triples + triples
+    else:
+        attrs += mp
+        triples += mp_triples
     body = struct.pack('>H', len(wd)) + wd + struct.pack('>H', len(attrs)) + attrs + ann
     msg = bgp_header(19 + len(body), 2) + body
     return msg, {'len': len(msg), 'wd': len(wd), 'al': len(attrs), 'triples': triples}
